@@ -4,6 +4,7 @@ import (
 	"database/sql"
 	"fmt"
 	"path/filepath"
+	"strings"
 	"sync"
 	"sync/atomic"
 
@@ -28,6 +29,12 @@ func c12LargeTexts(r *vf.Run) {
 			delete(row, "b")
 		}
 		ds.Rows = append(ds.Rows, row)
+	}
+	// rows whose value of column a is a long string: literals of those lengths appear in the texts below
+	longLens := []int{4096, 65532, 65533, 65534, 65535, 65536, 65537, 70001, 300001}
+	for _, n := range longLens {
+		ds.Rows = append(ds.Rows, oracle.Row{"a": strings.Repeat("L", n), "b": "1", "c": fmt.Sprint(n % 4)})
+		ds.Rows = append(ds.Rows, oracle.Row{"a": strings.Repeat("L", n-1) + `"`, "b": "2"})
 	}
 	ds.Index()
 	dir := filepath.Join(r.Scratch, "largetexts")
@@ -89,6 +96,11 @@ func c12LargeTexts(r *vf.Run) {
 			spread = append(spread, oracle.And(oracle.Not(leaf(i)), oracle.Not(oracle.Not(leaf(i+1)))))
 		}
 		shapes = append(shapes, shape{fmt.Sprintf("or-of-groups-with-%d-negations", n), oracle.Or(spread...)})
+	}
+	for _, n := range longLens {
+		shapes = append(shapes, shape{fmt.Sprintf("literal-of-%d-bytes", n), oracle.Eq("a", strings.Repeat("L", n))})
+		shapes = append(shapes, shape{fmt.Sprintf("literal-of-%d-bytes-ending-in-a-quote", n), oracle.Or(oracle.Eq("b", "0"), oracle.Eq("a", strings.Repeat("L", n-1)+`"`))})
+		shapes = append(shapes, shape{fmt.Sprintf("literal-of-%d-bytes-below-not", n), oracle.And(oracle.Not(oracle.Eq("a", strings.Repeat("L", n))), oracle.Eq("b", "1"))})
 	}
 	for oi, o := range dsnOptionSets {
 		cid := "largetexts/" + o.name
